@@ -325,3 +325,311 @@ def r_selectrange(db, rep):
             rep.viol("%s#select-range" % f.qn, f.nloc(n),
                      "%s enumerates occupied cells with select1(i) for i = %s; i %s %s, but select1 is 1-based and there are n strings "
                      "(its sibling loader uses 1..n): the last (or a non-existent) cell is mis-handled" % (f.qn, sig[0], sig[1], sig[2]), f.qn)
+
+
+# ---------------------------------------------------------------------------------------------------
+PROBE_FUNCS = [("Hash", "insert"), ("HashDAC", "insert"), ("Hashdh", "search"), ("HashBdh", "search"), ("HashBBdh", "search"),
+               ("HashDAC", "search"), ("StringDictionaryHASHRPDAC", "locate"), ("StringDictionaryHASHRPF", "locate")]
+
+
+def probe_signature(db, f):
+    """(start var, hash fn, step fn, modulus field name, recurrence kind) of a double-hashing walk in f, plus problems."""
+    probs = []
+    start = step = None
+    mod = set()
+    for n in f.live_nodes():
+        if n["k"] == "DeclStmt":
+            for d in n["decls"]:
+                ini = strip(d.get("init")) if d.get("init") is not None else None
+                if ini is not None and ini["k"] == "CallExpr" and callee_name(ini) in ("bitwisehash", "step_value") and len(ini.get("args", [])) == 3:
+                    p = access_path(f, ini["args"][2])
+                    m = p[-1] if p else None
+                    if callee_name(ini) == "bitwisehash":
+                        start = (d["d"], ini, m, [access_path(f, a) for a in ini["args"][:2]])
+                    else:
+                        step = (d["d"], ini, m, [access_path(f, a) for a in ini["args"][:2]])
+    if start is None or step is None:
+        return None, ["no bitwisehash/step_value pair"]
+    if start[2] != "tsize" or step[2] != "tsize":
+        probs.append("hash and step are not both reduced modulo the table size")
+    if start[3] != step[3]:
+        probs.append("hash and step are computed over different (string, length) arguments")
+    # advance statements: x = (a + b) % T
+    adv = []
+    for lv, w in written_lvalues(f):
+        if w.get("op") != "=" or w.get("rhs") is None:
+            continue
+        r = strip(w["rhs"])
+        if r["k"] == "BinaryOperator" and r["op"] == "%":
+            tp = access_path(f, r["rhs"])
+            sb = SeqBuilder(db, f, "c", nosubst=True)
+            for key in (start[0], step[0]):
+                sb.env[("local", key)] = ("local", key)
+            num = symx.poly(sb.sym(r["lhs"]))
+            tgt = access_path(f, lv)
+            adv.append((w, tgt, num, tp[-1] if tp else None, r))
+    if not adv:
+        return None, ["no probe advance statement"]
+    kinds_ = []
+    for w, tgt, num, m, r in adv:
+        if m != "tsize":
+            probs.append("probe advance at line %s is reduced modulo something other than the table size" % w.get("l"))
+        hs, ss = "L%d" % start[0], "L%d" % step[0]
+        keys = {k_: v for k_, v in num.items()}
+        if keys == {(hs,): 1, (ss,): 1} and tgt == ("local", start[0]):
+            kinds_.append("recurrence h=(h+s)%T")
+        else:
+            # (h + i*s) % T with i the loop variable starting at 1
+            ok = False
+            if (hs,) in keys and keys[(hs,)] == 1 and len(keys) == 2:
+                other = [k_ for k_ in keys if k_ != (hs,)][0]
+                if len(other) == 2 and ss in other and keys[other] == 1:
+                    iv = [x for x in other if x != ss][0]
+                    # loop variable initialised to 1 and incremented by one
+                    for ln in f.live_nodes():
+                        if ln["k"] == "ForStmt" and any(x is w for x in walk(ln["body"])):
+                            ini = ln.get("init")
+                            if ini is not None and ini["k"] == "DeclStmt" and ini["decls"] and "L%d" % ini["decls"][0].get("d", -1) == iv and \
+                                    const_value(ini["decls"][0].get("init")) == 1:
+                                inc = strip(ln.get("inc")) if ln.get("inc") is not None else None
+                                if inc is not None and inc["k"] == "UnaryOperator" and inc["op"] == "++":
+                                    ok = True
+            if ok:
+                kinds_.append("closed form (h+i*s)%T, i=1..")
+            else:
+                probs.append("probe advance at line %s is neither h=(h+s)%%T nor (h+i*s)%%T with i=1,2,.." % w.get("l"))
+    return {"kinds": kinds_}, probs
+
+
+@rule("R-PROBE", 8, "double hashing: every insert and every lookup computes start = bitwisehash(w,len,tsize), stride = "
+                    "step_value(w,len,tsize) and visits (start + i*stride) mod tsize for i = 1,2,..: the same cells in the same order")
+def r_probe(db, rep):
+    for rec, name in PROBE_FUNCS:
+        f = method(db, rec, name)
+        rep.visit(f)
+        sig, probs = probe_signature(db, f)
+        rep.inst(f.loc, "%s: %s" % (f.qn, ", ".join(sig["kinds"]) if sig else "no probe walk found"))
+        rep.ob()
+        for i, p in enumerate(probs):
+            rep.viol("%s#probe-%d" % (f.qn, i), f.loc, "%s: %s; an insert and a lookup that disagree on the probe sequence lose stored strings" % (f.qn, p), f.qn)
+
+
+def bucket_shape(poly_, bs_atom, bucket_atoms):
+    """ID expression shape (B + c - 1) * bs + R with c in {0, 1}: coefficient of B*bs is 1, of bs alone is -1 or 0, R free of bs."""
+    cb = None
+    for m, c in poly_.items():
+        if bs_atom in m:
+            others = tuple(x for x in m if x != bs_atom)
+            if len(others) == 0:
+                if c not in (-1, 0):
+                    return "constant multiple of bucketsize is %d" % c
+            elif len(others) == 1:
+                if c != 1:
+                    return "bucket index is multiplied by %d*bucketsize" % c
+                cb = others[0]
+            else:
+                return "non-linear use of bucketsize"
+    if cb is None:
+        return "no (bucket-1)*bucketsize term"
+    if ("F:this.bucketsize",) not in poly_ and cb is not None:
+        pass
+    return None
+
+
+@rule("R-BUCKET", 20, "front-coding ID arithmetic: locate forms IDs as (bucket-1)*bucketsize + offset, extract decomposes them with "
+                      "1+(id-1)/bucketsize and (id-1)%bucketsize, the last bucket holds elements%bucketsize strings; rank operations are the identity")
+def r_bucket(db, rep):
+    BS = "F:this.bucketsize"
+    for k in FC_KINDS:
+        # extract: decomposition
+        f = method(db, k, "extract")
+        rep.visit(f)
+        sb = SeqBuilder(db, f, "c", nosubst=True)
+        want_b = canon(mk_op("+", C(1), mk_op("/", mk_op("-", ("param", 0), C(1)), ("field", ("this", "bucketsize")))))
+        want_p = canon(mk_op("%", mk_op("-", ("param", 0), C(1)), ("field", ("this", "bucketsize"))))
+        got = {}
+        for n in f.live_nodes():
+            if n["k"] == "DeclStmt":
+                for d in n["decls"]:
+                    if d.get("init") is not None and any(x["k"] == "DeclRefExpr" and x.get("dk") == "param" and x.get("pi") == 0 for x in walk(d["init"])):
+                        got[d["n"]] = (canon(sb.sym(d["init"])), n)
+        rep.inst(f.loc, "%s: id -> (bucket, offset)" % f.qn)
+        rep.ob()
+        if not any(v[0] == want_b for v in got.values()):
+            rep.viol("%s#bucket-of-id" % f.qn, f.loc, "%s does not compute the bucket of an id as 1 + (id-1)/bucketsize (found: %s)" % (
+                f.qn, "; ".join("%s=%s" % (a, b[0]) for a, b in got.items())), f.qn)
+        rep.ob()
+        if not any(v[0] == want_p for v in got.values()):
+            rep.viol("%s#offset-of-id" % f.qn, f.loc, "%s does not compute the in-bucket offset of an id as (id-1)%%bucketsize (found: %s)" % (
+                f.qn, "; ".join("%s=%s" % (a, b[0]) for a, b in got.items())), f.qn)
+        # locate / locatePrefix: ID forming expressions
+        for opn in ("locate", "locatePrefix"):
+            g = method(db, k, opn)
+            rep.visit(g)
+            sbg = SeqBuilder(db, g, "c", nosubst=True)
+            exprs = []
+            for n in g.live_nodes():
+                e = None
+                if n["k"] == "ReturnStmt" and n.get("value") is not None:
+                    e = n["value"]
+                elif is_assignment(n) and n["op"] in ("=", "+="):
+                    e = n["rhs"]
+                if e is not None and any(x["k"] == "MemberExpr" and x.get("n") == "bucketsize" for x in walk(e)):
+                    se = strip(e)
+                    if se["k"] == "BinaryOperator" and se["op"] in ("+", "-", "*") or se["k"] == "ParenExpr":
+                        exprs.append((n, e))
+            rep.inst(g.loc, "%s: %d id-forming expressions" % (g.qn, len(exprs)))
+            for n, e in exprs:
+                rep.ob()
+                # keep every local symbolic
+                for x in walk(e):
+                    if x["k"] == "DeclRefExpr" and x.get("dk") == "local":
+                        sbg.env[("local", x["d"])] = ("local", x["d"])
+                pl = symx.poly(sbg.sym(e))
+                if not any(BS in m for m in pl):
+                    continue
+                why = bucket_shape(pl, BS, None)
+                if why:
+                    rep.viol("%s#id-shape:%s" % (g.qn, canon(sbg.sym(e))), g.nloc(n),
+                             "%s forms an ID as %s, which is not (bucket-1)*bucketsize + offset: %s" % (g.qn, canon(sbg.sym(e)), why), g.qn)
+        # last bucket size
+        for opn in ("locate", "locatePrefix", "extractPrefix"):
+            g = method(db, k, opn)
+            for n in g.live_nodes():
+                if n["k"] == "IfStmt" and n.get("cond") is not None:
+                    atoms_ = implied_atoms(n["cond"], True)
+                    is_last = any(strip(c)["k"] == "BinaryOperator" and strip(c)["op"] == "==" and
+                                  ("this", "buckets") in (access_path(g, strip(c)["lhs"]), access_path(g, strip(c)["rhs"])) for c, p in atoms_)
+                    if not is_last:
+                        continue
+                    sbg = SeqBuilder(db, g, "c", nosubst=True)
+                    want = canon(mk_op("%", ("field", ("this", "elements")), ("field", ("this", "bucketsize"))))
+                    rep.ob()
+                    rem = [c for c, p in atoms_ if any(x["k"] == "BinaryOperator" and x["op"] == "%" for x in walk(c))]
+                    okc = any(canon(sbg.sym(strip(c)["lhs"])) == want or canon(sbg.sym(strip(c)["rhs"])) == want for c in rem if strip(c)["k"] == "BinaryOperator")
+                    assigns = [w for lv, w in written_lvalues(g) if any(x is w for x in walk(n["then"]))]
+                    oka = any(w.get("rhs") is not None and canon(sbg.sym(w["rhs"])) == want for w in assigns)
+                    if not (okc and oka):
+                        rep.viol("%s#last-bucket" % g.qn, g.nloc(n),
+                                 "%s: the size of the last bucket is not taken as elements %% bucketsize under `bucket == buckets && elements %% bucketsize != 0`" % g.qn, g.qn)
+    # rank operations
+    for k in ORDERED_KINDS + ["StringDictionaryXBW"]:
+        lr = method(db, k, "locateRank")
+        er = method(db, k, "extractRank")
+        rep.visit(lr)
+        rep.inst(lr.loc, "%s / extractRank" % lr.qn)
+        rep.ob()
+        rets = [n for n in lr.live_nodes() if n["k"] == "ReturnStmt"]
+        if k != "StringDictionaryXBW":
+            if len(rets) != 1 or access_path(lr, rets[0].get("value")) != ("param", 0):
+                rep.viol("%s#not-identity" % lr.qn, lr.loc, "%s is not the identity on ranks although IDs are ranks in this kind" % lr.qn, lr.qn)
+            rep.ob()
+            ok = False
+            for n in er.live_nodes():
+                if n["k"] == "ReturnStmt" and n.get("value") is not None:
+                    c = strip(n["value"])
+                    if c["k"] == "CXXMemberCallExpr" and callee_name(c) == "extract" and access_path(er, c["args"][0]) == ("param", 0) and \
+                            access_path(er, c["args"][1]) == ("param", 1):
+                        ok = True
+            if not ok:
+                rep.viol("%s#not-extract" % er.qn, er.loc, "%s does not delegate to extract(rank, strLen)" % er.qn, er.qn)
+
+
+@rule("R-FMMAP", 4, "FM-index row <-> ID mapping: extract and both string iterators map id == elements to row 2 and every other id to "
+                    "id+3; locate and locateP shift rows by -2")
+def r_fmmap(db, rep):
+    sites = [("StringDictionaryFMINDEX", "extract", ("param", 0), ("this", "elements")),
+             ("IteratorDictStringFMINDEX", "next", ("this", "processed"), ("this", "last")),
+             ("IteratorDictStringFMINDEXDuplicates", "next", None, ("this", "last"))]
+    for rec, name, idp, lastp in sites:
+        f = method(db, rec, name)
+        rep.visit(f)
+        rep.inst(f.loc, "%s: id -> BWT row" % f.qn)
+        rep.ob()
+        found = False
+        for n in f.live_nodes():
+            if n["k"] != "IfStmt" or n.get("cond") is None:
+                continue
+            c = strip(n["cond"])
+            if c["k"] != "BinaryOperator" or c["op"] != "==":
+                continue
+            l, r = access_path(f, c["lhs"]), access_path(f, c["rhs"])
+            if lastp not in (l, r):
+                continue
+            idv = l if r == lastp else r
+            t_as = [w for lv, w in written_lvalues(f) if any(x is w for x in walk(n["then"]))]
+            e_as = [w for lv, w in written_lvalues(f) if n.get("else") is not None and any(x is w for x in walk(n["else"]))]
+            sb = SeqBuilder(db, f, "c", nosubst=True)
+            if idv and idv[0] == "local":
+                sb.env[idv] = ("local", idv[1])
+            okt = any(const_value(w.get("rhs")) == 2 for w in t_as)
+            oke = False
+            for w in e_as:
+                if w.get("op") == "+=" and const_value(w.get("rhs")) == 3:
+                    oke = True
+                elif w.get("rhs") is not None:
+                    pl = symx.poly(sb.sym(w["rhs"]))
+                    if pl.get((), 0) == 3 and len(pl) == 2 and all(c == 1 for m, c in pl.items() if m):
+                        oke = True
+            found = True
+            if not (okt and oke):
+                rep.viol("%s#row-mapping" % f.qn, f.nloc(n), "%s does not map id == last to row 2 and any other id to row id+3" % f.qn, f.qn)
+        if not found:
+            rep.viol("%s#row-mapping-missing" % f.qn, f.loc, "%s lacks the `id == last ? 2 : id+3` row mapping" % f.qn, f.qn)
+    # inverse direction: -2
+    f = method(db, "StringDictionaryFMINDEX", "locate")
+    rep.visit(f)
+    rep.inst(f.loc, "%s: row -> id" % f.qn)
+    rep.ob()
+    sb = SeqBuilder(db, f, "c", nosubst=True)
+    ok = False
+    for n in f.live_nodes():
+        if n["k"] == "ReturnStmt" and n.get("value") is not None and const_value(n["value"]) is None:
+            v = strip(n["value"])
+            for x in walk(v):
+                if x["k"] == "DeclRefExpr" and x.get("dk") == "local":
+                    sb.env[("local", x["d"])] = ("local", x["d"])
+            pl = symx.poly(sb.sym(v))
+            if pl.get((), 0) == -2 and len(pl) == 2:
+                ok = True
+    if not ok:
+        rep.viol("%s#row-shift" % f.qn, f.loc, "%s does not return row-2 for the row reported by the index" % f.qn, f.qn)
+    g = db.fn("SSA::locateP")
+    rep.visit(g)
+    rep.inst(g.loc, "SSA::locateP: rows -> ids")
+    sbg = SeqBuilder(db, g, "c", nosubst=True)
+    for tgt in (3, 4):   # *left, *right
+        rep.ob()
+        ok = False
+        for lv, w in written_lvalues(g):
+            s = strip(lv)
+            if s["k"] == "UnaryOperator" and s["op"] == "*" and access_path(g, s["sub"]) == ("param", tgt - 1) and w.get("rhs") is not None:
+                for x in walk(w["rhs"]):
+                    if x["k"] == "DeclRefExpr" and x.get("dk") == "local":
+                        sbg.env[("local", x["d"])] = ("local", x["d"])
+                pl = symx.poly(sbg.sym(w["rhs"]))
+                if pl.get((), 0) == -2 and len(pl) == 2:
+                    ok = True
+        if not ok:
+            rep.viol("SSA::locateP#row-shift-%d" % tgt, g.loc, "SSA::locateP does not report %s as row-2" % g.params[tgt - 1]["n"], g.qn)
+
+
+@rule("R-NOSORT", 6, "builders of the order-preserving kinds never reorder their input: no sort/shuffle/swap-based permutation of the "
+                     "consumed strings is reachable from their constructors (the FM-index sorts suffixes, not strings: its ID order is fixed by R-FMMAP)")
+def r_nosort(db, rep):
+    for k in FC_KINDS + ["StringDictionaryRPDAC"]:
+        ctors = [c for c in db.methods_of(k) if c.is_ctor and c.params and "Iterator" in c.tstr(c.params[0]["t"])]
+        for c in ctors:
+            clo, inst = db.rta([c])
+            rep.visit(c)
+            rep.inst(c.loc, "%s: %d functions on the build path" % (c.qn, len(clo)))
+            for fid in sorted(clo):
+                g = db.funcs[fid]
+                if g.file.startswith("RePair/Coder/"):
+                    continue      # the Re-Pair compressor orders *pairs* by frequency (heap), never the strings
+                for n in g.calls():
+                    rep.ob()
+                    if n.get("ext") and callee_name(n) in ("sort", "stable_sort", "qsort", "shuffle", "random_shuffle", "reverse", "partial_sort", "nth_element"):
+                        rep.viol("%s#reorders-input:%s" % (c.qn, g.qn), g.nloc(n),
+                                 "%s is on the build path of order-preserving kind %s (%s) and calls %s: IDs would no longer be lexicographic ranks" % (
+                                     g.qn, k, " -> ".join(db.chain(clo, fid)[-3:]), callee_name(n)), g.qn)
